@@ -22,7 +22,7 @@ ASSUMPTIONS = [
     "fixture internals follow the fixtures library (a failing _setUp runs the fixture's own cleanups immediately)",
 ]
 
-PROG = P.programs(nonexc=True, multi=True, patch=True, fixture=True, expect=True, force=True, cleanup_depth=3, p_raise=4)
+PROG = P.programs(nonexc=True, multi=True, patch=True, fixture=True, expect=True, force=True, cleanup_depth=3, p_raise=4, extras=True)
 CASE = st.fixed_dictionaries({"prog": PROG, "runs": st.sampled_from([2, 2, 3]), "flavour": st.sampled_from(["ext", "real", "py27"])})
 
 
